@@ -393,6 +393,85 @@ mut("C05", "range_end_only_when_kept", MR, """            merged_range_end = std
 
         Inner {""", ["R3|merge_inner|range-end"], "range end not advanced")
 
+# ---------------- C09
+PRJ = L + "intermediate_representation/project.rs"
+BDN = L + "intermediate_representation/project/block_duplication_normalization.rs"
+M.append(("C09", "callother_not_suffixed", {"edits": [
+    {"file": BDN, "find": """                        Jmp::BranchInd(_) | Jmp::Return(_) => (),
+                        Jmp::Branch(target) | Jmp::CBranch { target, .. } => {
+                            if tid_to_original_sub_map""", "replace": """                        Jmp::BranchInd(_) | Jmp::Return(_) | Jmp::CallOther { .. } => (),
+                        Jmp::Branch(target) | Jmp::CBranch { target, .. } => {
+                            if tid_to_original_sub_map"""},
+    {"file": BDN, "find": """                        Jmp::Call { return_, .. }
+                        | Jmp::CallInd { return_, .. }
+                        | Jmp::CallOther { return_, .. } => {
+                            if let Some(target) = return_ {""", "replace": """                        Jmp::Call { return_, .. }
+                        | Jmp::CallInd { return_, .. } => {
+                            if let Some(target) = return_ {"""}],
+    "expect": ["R1|append_jump_targets", "CallOther.return_"], "desc": "CallOther return target not renamed after duplication"}))
+mut("C09", "dup_before_repair", PRJ, """        logs.append(self.remove_references_to_nonexisting_tids().as_mut());
+        make_block_to_sub_mapping_unique(self);""", """        make_block_to_sub_mapping_unique(self);
+        logs.append(self.remove_references_to_nonexisting_tids().as_mut());""", ["R3|order|remove_references"], "block duplication before dangling references are repaired")
+mut("C09", "clone_keeps_def_tids", BDN, """        for def in cloned_block.term.defs.iter_mut() {
+            def.tid = def.tid.clone().with_id_suffix(suffix);
+        }
+""", "", ["R2|clone_with_tid_suffix|Def"], "cloned blocks keep def tids")
+M.append(("C09", "callind_return_not_checked", {"edits": [
+    {"file": PRJ, "find": """            | CallInd {
+                return_: Some(return_tid),
+                ..
+            }
+            | CallOther {""", "replace": """            | CallOther {"""}],
+    "expect": ["R1|retarget_nonexisting", "CallInd.return_"], "desc": "dangling return target of indirect calls not repaired"}))
+mut("C09", "jmp_tids_not_deduped", PRJ, """                for jmp in &block.term.jmps {
+                    if known_tids.insert(jmp.tid.clone()) {
+                        filtered_jmps.push(jmp.clone());
+                    } else {
+                        errors.push(LogMessage::new_error(&format!(
+                            "Removed duplicate of TID {}. This is a Bug in the cwe_checker!",
+                            jmp.tid
+                        )));
+                    }
+                }""", """                for jmp in &block.term.jmps {
+                    filtered_jmps.push(jmp.clone());
+                }""", ["R2|remove_duplicate_tids|level|Jmp"], "duplicate jump ids not detected")
+mut("C09", "wrong_sink_suffix", PRJ, """                        if extern_symbol.no_return {
+                            // Reroute returns from calls to non-returning
+                            // library functions.
+                            *return_tid = Tid::artificial_sink_block(&sub_id_suffix);""", """                        if extern_symbol.no_return {
+                            // Reroute returns from calls to non-returning
+                            // library functions.
+                            *return_tid = Tid::artificial_sink_block("");""", ["R4|retarget|to-own-sink"], "non-returning call returns to the global sink block")
+mut("C09", "sink_block_not_added", PRJ, """            if one_or_more_call_retargeted {
+                sub.add_artifical_sink();
+            }""", """            let _ = one_or_more_call_retargeted;""", ["R4|sink-added-when-retargeted"], "sink block never added")
+mut("C09", "externs_not_targets", PRJ, """        for symbol_tid in self.program.term.extern_symbols.keys() {
+            jump_target_tids.insert(symbol_tid.clone());
+        }
+""", "", ["R1|find_all_jump_targets"], "calls to extern symbols are treated as dangling")
+mut("C09", "indirect_targets_not_followed", BDN, """                        for target_tid in block.term.indirect_jmp_targets.iter() {
+                            if !block_set.contains(target_tid) {
+                                worklist.push(target_tid.clone())
+                            }
+                        }
+""", "", ["R1|generate_sub_tid_to_contained_block_tids_map|Blk.indirect_jmp_targets"], "indirect jump target hints not followed when collecting a function's blocks")
+mut("C09", "dedup_after_dup", PRJ, """        let mut logs = self.remove_duplicate_tids();
+        self.add_artifical_sink();
+        logs.append(self.remove_references_to_nonexisting_tids().as_mut());
+        make_block_to_sub_mapping_unique(self);""", """        self.add_artifical_sink();
+        let mut logs = self.remove_references_to_nonexisting_tids();
+        make_block_to_sub_mapping_unique(self);
+        logs.append(self.remove_duplicate_tids().as_mut());""", ["R3|order|remove_duplicate_tids"], "duplicate removal after block duplication")
+mut("C09", "SILENT_nonreturning_before_dup", PRJ, """        make_block_to_sub_mapping_unique(self);
+        logs.append(
+            self.retarget_non_returning_calls_to_artificial_sink()
+                .as_mut(),
+        );
+""", """        make_block_to_sub_mapping_unique(self);
+        let mut more = self.retarget_non_returning_calls_to_artificial_sink();
+        logs.append(&mut more);
+""", [], "pure refactoring of normalize_basic (must NOT be reported)")
+
 for prop, name, spec in M:
     if name.startswith("SILENT_"):
         spec["silent"] = True
